@@ -6,6 +6,7 @@ mod proj;
 mod rt;
 mod drv;
 mod tree;
+mod consts;
 
 use serde_json::{json, Value};
 use std::io::{BufRead, BufWriter, Write};
@@ -73,6 +74,20 @@ fn main() {
             drv::drive(&args[2], &args[3], &args[4..]);
         }
         "smoke" => drv::smoke(),
+        "consts" => consts::emit(&args[2]),
+        "state" => {
+            // run a setup (list of actions) and dump the projected state as one JSON object
+            let setup: Value = serde_json::from_str(&std::fs::read_to_string(&args[2]).expect("setup")).expect("json");
+            let mut ex = act::Exec::new();
+            for a in setup.as_array().unwrap() {
+                let ev = ex.apply(a);
+                if ev["res"] != "ok" {
+                    eprintln!("SETUP-FAILED action={} label={}", a, ev["label"]);
+                    std::process::exit(2);
+                }
+            }
+            std::fs::write(&args[3], Value::Object(proj::project(&ex.env)).to_string()).expect("write");
+        }
         "tree" => {
             if args.len() < 6 {
                 usage();
